@@ -211,6 +211,11 @@ def run(sc, ctx):
         if err or err2 or open(p).read() != T1 or s.getvalue() != T1:
             bad('routes', 'save-route', 'Atoms.save(path) / Atoms.save(file, "lmpdat") do not write the same text as save_lmpdat: %r' % ((err or err2 or ('', ''))[0],))
         else:
+            p2 = os.path.join(d, 'f%d.data.txt' % os.getpid())
+            r3, e3 = call(a.save, p2, 'lmpdat', atom_format=style)
+            l3, e3b = call(Atoms.load, p2, 'lmpdat', atom_format=style) if not e3 else (None, e3)
+            if e3b or open(p2).read() != T1 or raw_state(l3) != raw_state(b):
+                bad('routes', 'explicit-filetype', 'Atoms.save / Atoms.load with an explicit filetype on a path with another extension: %r' % ((e3b or ('differs', ''))[0],))
             l1, e1 = call(Atoms.load, p, atom_format=style); l2, e2 = call(Atoms.load, io.StringIO(T1), 'lmpdat', atom_format=style)
             out['evals'] += 2
             if e1 or e2 or raw_state(l1) != raw_state(b) or raw_state(l2) != raw_state(b):
